@@ -282,17 +282,19 @@ def eval_case(ctx, case):
     detail = {"text": text, "files": files}
     EXTS = ["colon_fence", "deflist", "fieldlist", "dollarmath", "attrs_block", "attrs_inline", "tasklist"]
     try:
-        if case.get("front_end") == "sphinx" and not files:
-            # the same ground truth through the Sphinx front end: node lines from the read doctree, warning lines from Sphinx' log records
-            b = drive.SphinxBuild({"index.md": text}, conf={"myst_enable_extensions": EXTS}, builder="dummy")
+        if case.get("front_end") == "sphinx":
+            # the same ground truth through the Sphinx front end: node lines from the read doctree, warning paths and lines from Sphinx' warning stream
+            b = drive.SphinxBuild({"index.md": text, **files}, conf={"myst_enable_extensions": EXTS, "exclude_patterns": ["inc*.md"]}, builder="dummy")
+            for mk in marks.values():
+                if str(mk.get("source", "")).startswith(TMP + os.sep):
+                    mk["source"] = os.path.join(b.src, os.path.basename(mk["source"]))
             try:
                 b.build()
                 doc = b.doctree("index")
                 src = os.path.join(b.src, "index.md")
                 lines = []
-                for r in b.records:
-                    mm = re.search(r"^(.*):(\d+)$", str(r["location"] or ""))
-                    lines.append(f"{mm.group(1) if mm else src}:{mm.group(2) if mm else ''}: (WARNING/2) {r['msg']}")
+                for r in b.stream_records():  # the warning stream: what the user sees after Sphinx' handler-level filters
+                    lines.append(f"{os.path.join(b.src, r['path']) if r['path'] else src}:{r['line'] if r['line'] is not None else ''}: (WARNING/2) {r['msg']}")
                 wtext = "\n".join(lines)
             finally:
                 b.close()
@@ -430,6 +432,8 @@ def run_shard(ctx):
             incs.append({"opt": R.choice(["plain", "plain", "start-line", "end-line", "start-after", "end-before", "heading-offset", "both"]), "nleaves": R.randint(1, 3), "leaves": [R.choice(["para", "heading", "fence", "list", "target"]) for _ in range(3)],
                          "pre": R.randint(0, 3), "marker": R.choice(["own-line", "own-line", "after-text", "indented", "mid-line"]), "nested": R.random() < 0.2, "final_nl": R.random() < 0.8, "chain": [R.choice(cs) for _ in range(R.choice([0, 0, 1, 2]))]})
         case = {"kind": "include", "includes": incs}
+        if i % 25 == 3:
+            case["front_end"] = "sphinx"
         eval_case(ctx, case)
         ctx.case(("include", repr(case)), True)
         ctx.count("include_cases")
